@@ -522,6 +522,32 @@ func c08SCIONResponses(r *ev.Run, rng *rand.Rand, srvIP, cliIP netip.Addr, auth 
 			})
 		}
 	}
+	// a well-formed timestamping cmsg whose time lies just behind the transmit time the request itself
+	// carries, i.e. between the client's two readings of its own transmit time
+	for _, delta := range []int64{0, 1, 2, 100, 1000, 10000, 100000} {
+		for _, typ := range []uint32{65, 35, 37} {
+			delta, typ := delta, typ
+			add("scion-response-timestamp-option-just-after-request-transmit-time", func(req []byte, rng *rand.Rand) [][]byte {
+				var sec, nsec uint64
+				if ps, err := peer.ParseSCION(req); err == nil && ps.HasUDP {
+					if f, ok := peer.ParseNTP(ps.UDP.Payload); ok {
+						sec = f.Transmit>>32 - 2208988800
+						nsec = (f.Transmit&0xffffffff)*1000000000>>32 + 1 + uint64(delta)
+						sec, nsec = sec+nsec/1000000000, nsec%1000000000
+					}
+				}
+				d := make([]byte, 64)
+				binary.LittleEndian.PutUint64(d[0:], 64)
+				binary.LittleEndian.PutUint32(d[8:], 1)
+				binary.LittleEndian.PutUint32(d[12:], typ)
+				binary.LittleEndian.PutUint64(d[16:], sec)
+				binary.LittleEndian.PutUint64(d[24:], nsec)
+				return [][]byte{reply(req, func(p *peer.SCIONPkt, _ *peer.NTPFields) {
+					p.E2E = []*slayers.EndToEndOption{{OptType: 253, OptData: d}}
+				})}
+			})
+		}
+	}
 	for l := 0; l <= 44; l++ {
 		l := l
 		add("scion-response-authenticator-option-length", func(req []byte, rng *rand.Rand) [][]byte {
